@@ -13,7 +13,8 @@ c18pipe <fixes> <entry> <flags> <udReq> <builtin> <wrappers> <getBody> <transpor
   builtin    per-attempt acts ','               act = o | f<err>            ("-" = none)
   wrappers   stages ';'  acts ','   act = p | sn<err> | sf<err> | nn | pe<err> | pn<err> | sw | ps<err>
   getBody    per-attempt bits ','                                            ("-" = none)
-  transport  per-attempt ','   f<err> | r<status>:<custom>:<readOK>:<jsonOK>:<xmlOK>:<ct hex>
+  transport  per-attempt ','   f<err> | r<status>:<custom>:<readOK>:<jsonOK>:<xmlOK>:<ct hex>[:<xf>]
+             xf = - (no body transformer) | k (accepts) | n<err> (fails, nil body) | b<err> (fails, returns a body)
   clientResp stages ';'  acts ','   act = n | r<err> | s<err> | c
   reqResp    stages ';'  acts ','   act = n | r<err> | s<err> | c | d<chalOK>/<transport outcome>
   retry      <maxRetries>:<conds>    conds = "-" (default rule) | bits, one per attempt
@@ -40,12 +41,14 @@ def parseRespAct (s : String) : Option RespAct :=
 def parseTOut (s : String) : Option TOut :=
   if s.startsWith "f" then (parseErr1 (s.drop 1).toString).map .fail
   else if s.startsWith "r" then
+    let mk (st cu rd jo xo ct xf : String) : Option TOut :=
+      match decodeInt st, parseState cu, parseBool rd, parseBool jo, parseBool xo, decodeHex ct, parseXf xf with
+      | some st, some cu, some rd, some jo, some xo, some ct, some xf =>
+        some (.resp { status := st, ct := ct, custom := cu, readOK := rd, jsonOK := jo, xmlOK := xo, xf := xf })
+      | _, _, _, _, _, _, _ => none
     match (s.drop 1).toString.splitOn ":" with
-    | [st, cu, rd, jo, xo, ct] =>
-      match decodeInt st, parseState cu, parseBool rd, parseBool jo, parseBool xo, decodeHex ct with
-      | some st, some cu, some rd, some jo, some xo, some ct =>
-        some (.resp { status := st, ct := ct, custom := cu, readOK := rd, jsonOK := jo, xmlOK := xo })
-      | _, _, _, _, _, _ => none
+    | [st, cu, rd, jo, xo, ct] => mk st cu rd jo xo ct "-"
+    | [st, cu, rd, jo, xo, ct, xf] => mk st cu rd jo xo ct xf
     | _ => none
   else none
 
